@@ -30,6 +30,8 @@ def hist_sources(ctx, R):
                 has_plus = any(c['op'] == '+=' and c['b'] == q for c in by[q]) and any(c['op'] == '-=' and c['b'] == q for c in by[q])
                 has_times = any(c['op'] == '*=' and c['b'] == 'number' for c in by[q]) and any(c['op'] == '/=' and c['b'] == 'number' for c in by[q])
                 body += '    if constexpr (hist::HasMutableValueQ<Q>::value) hist::add_aliasing<Q>(ex, %s, %s);\n' % ('true' if has_plus else 'false', 'true' if has_times else 'false')
+                if has_times:
+                    body += '    hist::add_other_number_types<Q>(ex);\n'
                 body += '    ex.run();\n'
             body += '    hist::math_all<Q>("%s");\n  }\n' % q
         src = (inc + '#include "c04_hist.hpp"\n// dep %s\ntemplate <class T>\nvoid all() {\n%s}\n' % (dep, body) +
@@ -41,7 +43,7 @@ def hist_sources(ctx, R):
     for nm in ('PlanarVector', 'Vector', 'SymmetricDyad', 'Dyad'):
         raw += ('  {\n    using Q = PhQ::%s<T>;\n    hist::Explorer<Q> ex;\n    ex.qname = "%s";\n    hist::add_plus_minus<Q, Q>(ex, "%s", true);\n'
                 '    hist::add_plus_minus<Q, Q>(ex, "%s", false);\n    hist::add_times_divide<Q>(ex, true);\n    hist::add_times_divide<Q>(ex, false);\n'
-                '    hist::add_aliasing<Q>(ex, true, true);\n    ex.run();\n  }\n') % (nm, nm, nm, nm)
+                '    hist::add_aliasing<Q>(ex, true, true);\n    hist::add_other_number_types<Q>(ex);\n    ex.run();\n  }\n') % (nm, nm, nm, nm)
     src = (inc + '#include "c04_hist.hpp"\n// dep %s\ntemplate <class T>\nvoid all() {\n%s}\n' % (dep, raw) +
            'int main() {\n  const bool th = std::getenv("VERIF_TIER") && std::string(std::getenv("VERIF_TIER")) == "thorough";\n  hist::DEPTH = th ? 5 : 4;\n'
            '  all<float>();\n  all<double>();\n  all<long double>();\n}\n')
